@@ -27,7 +27,8 @@ static void model_violation(const std::string &type, const std::string &what_kin
 	else count("unarmed:model:" + type + ":" + what_kind);
 }
 
-template<typename E> static const char *ename() { if constexpr (std::is_same_v<E, Pod>) return "pod"; else return "elem"; }
+template<typename E> static const char *ename() { if constexpr (std::is_same_v<E, Pod>) return "pod"; else if constexpr (std::is_same_v<E, PodNZ>) return "pod-nonzero-default"; else return "elem"; }
+template<typename E> static int dflt() { static const int d = E().get(); return d; } // what a value-initialised element holds
 
 // per-case bookkeeping shared by all adapters
 struct CaseCtx {
@@ -98,7 +99,7 @@ struct VecAdapter {
 		case 3: { a.push_back(E(s.next)); s.ra.push_back(s.next++); c.op("push_back(&&)"); break; }
 		case 4: { E &r = a.emplace_back(s.next / 1000, s.next % 1000); s.ra.push_back(s.next++); c.op("emplace_back(a,b)"); if(&r != &a.back()) c.fail("push-ref", "emplace_back reference"); break; }
 		case 5: if(!s.ra.empty()) { E e = a.pop(); c.op("pop"); if(e.get() != s.ra.back()) c.fail("pop", strf("pop() returned %d expected %d", e.get(), s.ra.back())); s.ra.pop_back(); } break;
-		case 6: { size_t n = s.ra.size() + 1 + p % 5; a.resize(n); s.ra.resize(n, 0); c.op(strf("resize(%zu)", n)); break; }
+		case 6: { size_t n = s.ra.size() + 1 + p % 5; a.resize(n); s.ra.resize(n, dflt<E>()); c.op(strf("resize(%zu)", n)); break; }
 		case 7: { size_t n = s.ra.size() + 1 + p % 9; const E proto(777); a.resize(n, proto); s.ra.resize(n, 777); c.op(strf("resize(%zu,777)", n)); break; }
 		case 8: { size_t n = s.ra.size() / 2; a.resize(n); s.ra.resize(n); c.op(strf("resize(%zu)", n)); break; }
 		case 9: { a.resize(0); s.ra.clear(); c.op("resize(0)"); break; }
@@ -163,7 +164,7 @@ struct SmallVecAdapter {
 		case 1: { E &r = a.push_back(E(s.next)); s.ra.push_back(s.next++); c.op("push_back(&&)"); if(&r != &a.back()) c.fail("push-ref", "push_back(&&) reference"); break; }
 		case 2: { a.emplace_back(s.next / 1000, s.next % 1000); s.ra.push_back(s.next++); c.op("emplace_back(a,b)"); break; }
 		case 3: if(!s.ra.empty()) { a.pop_back(); s.ra.pop_back(); c.op("pop_back"); } break;
-		case 4: { size_t n = s.ra.size() + 1 + p % 5; a.resize(n); s.ra.resize(n, 0); c.op(strf("resize(%zu)", n)); break; }
+		case 4: { size_t n = s.ra.size() + 1 + p % 5; a.resize(n); s.ra.resize(n, dflt<E>()); c.op(strf("resize(%zu)", n)); break; }
 		case 5: { size_t n = s.ra.size() + 1 + p % (N + 3); const E proto(777); a.resize(n, proto); s.ra.resize(n, 777); c.op(strf("resize(%zu,777)", n)); break; }
 		case 6: { size_t n = s.ra.size() / 2; a.resize(n); s.ra.resize(n); c.op(strf("resize(%zu)", n)); break; }
 		case 7: { a.resize(0); s.ra.clear(); c.op("resize(0)"); break; }
@@ -171,7 +172,7 @@ struct SmallVecAdapter {
 		case 9: { s.b.reset(new V(a)); s.rb = s.ra; c.op("b=V(a)"); break; }
 		case 10: { std::unique_ptr<V> n(new V(std::move(a))); s.b = std::move(n); s.rb = s.ra; s.ra.clear(); s.a.reset(new V(TrackedAlloc(&s.as))); c.op("b=V(move(a))"); break; }
 		case 11: { E e(s.next); s.b->push_back(e); s.rb.push_back(s.next++); c.op("b.push_back"); break; }
-		case 12: { size_t n = N; a.resize(n); s.ra.resize(n, 0); c.op(strf("resize(N=%zu)", n)); break; }
+		case 12: { size_t n = N; a.resize(n); s.ra.resize(n, dflt<E>()); c.op(strf("resize(N=%zu)", n)); break; }
 		case 13: { size_t n = N + 1; const E proto(5); a.resize(n, proto); s.ra.resize(n, 5); c.op(strf("resize(N+1=%zu,5)", n)); break; }
 		case 14: if constexpr (std::is_copy_constructible_v<E>) { if(!s.ra.empty()) { size_t i = p % s.ra.size(); a.push_back(a[i]); s.ra.push_back(s.ra[i]); c.op(strf("push_back(a[%zu])", i)); } } break;
 		case 15: if constexpr (std::is_copy_constructible_v<E>) { if(!s.ra.empty()) { size_t i = p % s.ra.size(); a.emplace_back(a[i]); s.ra.push_back(s.ra[i]); c.op(strf("emplace_back(a[%zu])", i)); } } break;
@@ -216,7 +217,7 @@ struct DynAdapter {
 	static void apply(CaseCtx &c, State &s, int op, uint64_t p) {
 		V &a = *s.a;
 		switch(op) {
-		case 0: { size_t n = p % 6; s.a.reset(new V(n, TrackedAlloc(&s.as))); s.ra.assign(n, 0); c.op(strf("a=V(%zu)", n)); break; }
+		case 0: { size_t n = p % 6; s.a.reset(new V(n, TrackedAlloc(&s.as))); s.ra.assign(n, dflt<E>()); c.op(strf("a=V(%zu)", n)); break; }
 		case 1: { for(size_t i = 0; i < s.ra.size(); i++) { a[i] = E(s.next); s.ra[i] = s.next++; } c.op("fill(a)"); break; }
 		case 2: { a = *s.b; s.ra = s.rb; c.op("a=b"); break; }
 		case 3: { *s.b = a; s.rb = s.ra; c.op("b=a"); break; }
@@ -225,7 +226,7 @@ struct DynAdapter {
 		case 6: { s.b.reset(new V(a)); s.rb = s.ra; c.op("b=V(a)"); break; }
 		case 7: { std::unique_ptr<V> n(new V(std::move(a))); s.b = std::move(n); s.rb = s.ra; s.ra.clear(); s.a.reset(new V(TrackedAlloc(&s.as))); c.op("b=V(move(a))"); break; }
 		case 8: { V &ar = a; a = ar; c.op("a=a"); break; }
-		case 9: { size_t n = 1 + p % 40; s.b.reset(new V(n, TrackedAlloc(&s.as_b))); s.rb.assign(n, 0); for(size_t i = 0; i < n; i += 3) { (*s.b)[i] = E(s.next); s.rb[i] = s.next++; } c.op(strf("b=V(%zu)+fill", n)); break; }
+		case 9: { size_t n = 1 + p % 40; s.b.reset(new V(n, TrackedAlloc(&s.as_b))); s.rb.assign(n, dflt<E>()); for(size_t i = 0; i < n; i += 3) { (*s.b)[i] = E(s.next); s.rb[i] = s.next++; } c.op(strf("b=V(%zu)+fill", n)); break; }
 		}
 	}
 };
@@ -489,6 +490,10 @@ int main(int argc, char **argv) {
 	bool t = opt.thorough();
 	run_elem_family<Pod>(t);
 	run_elem_family<Elem>(t);
+	// a trivially copyable element type whose default value is not all-zero bytes
+	run_type<VecAdapter<PodNZ>>("vector<pod-nonzero-default>", t ? 4 : 3, scaled(200, 8000), t ? 200 : 40);
+	run_type<SmallVecAdapter<PodNZ, 2>>("small_vector<pod-nonzero-default,2>", t ? 4 : 3, scaled(100, 4000), t ? 200 : 40);
+	run_type<DynAdapter<PodNZ>>("dyn_array<pod-nonzero-default>", t ? 5 : 4, scaled(100, 4000), 40);
 	run_type<IListAdapter>("intrusive_list", t ? 6 : 5, scaled(600, 30000), t ? 300 : 60);
 	return finish();
 }
